@@ -34,6 +34,9 @@ type L = Arc<Mutex<Log>>;
 
 fn task(log: &L, id: u32, inner: Option<Op>, sch: NewThreadScheduler<'static>) -> impl Fn() + Clone + Send + Sync + 'static {
   let log = log.clone();
+  // a plain task holds no handle of the scheduler it is queued on: when the posters are done and
+  // drop theirs, the tasks still queued have to run all the same
+  let sch = if inner.is_some() { Some(sch) } else { None };
   move || {
     let i = {
       let mut l = log.lock().unwrap();
@@ -41,8 +44,8 @@ fn task(log: &L, id: u32, inner: Option<Op>, sch: NewThreadScheduler<'static>) -
       l.runs.len() - 1
     };
     rxverif_rt::point();
-    if let Some(op) = &inner {
-      do_op(&log, op, &sch);
+    if let (Some(op), Some(sch)) = (&inner, &sch) {
+      do_op(&log, op, sch);
     }
     let st = rxverif_rt::stamp();
     log.lock().unwrap().runs[i].2 = st;
